@@ -94,7 +94,8 @@ PROPERTIES = {
     }
 }
 
-RULE = ("one case = one workload of 2..16 threads (own handler, own destinations, own command line each); one "
+RULE = ("one case = one workload of 2..16 threads (own handler, own destinations, own command line each; `file` threads "
+        "also an argument file / environment variable of their own); one "
         "evaluation = one protocol line; a `run` line stands for reps x threads concurrent handler lifetimes in the "
         "TSan build and as many in the ASan build, each compared with the same job run alone in the same process and, "
         "for threads inside the model's fragment, with the model driver; distinct_nontrivial = distinct (thread "
@@ -605,6 +606,60 @@ def group_case(rng, cid, nthreads, reps, forced):
     return Case(cid, lines)
 
 
+def file_case(rng, cid, nthreads, reps, forced, nfile=1):
+    """threads that take their arguments from a file / an environment variable OF THEIR OWN beside plain threads
+    (seeded/C09-4: Handler::mReadMode made process-wide).  A file thread (`file t=<k> mode=argfile|progarg|env`) evaluates
+    its source through Handler::readArgumentFile() / checkReadEnvVarArgs(); while it is in there ITS handler skips the
+    cardinality checks (values from a file may be overwritten by the command line).  The plain threads evaluate command
+    lines whose acceptance DEPENDS on the cardinality check: a scalar given twice (`-i 1 -i 101`: refused, i stays 1),
+    a list with `card=max:2` used three times, and lines that are accepted.  forced=1: the plain threads run their whole
+    job while every file thread sits in the `--hold` callable in the middle of its source; free running: long files
+    (hundreds of lines) so that the window is wide, for TSan."""
+    seps = rng.sample(SEPS.replace(":", ""), min(len(SEPS) - 1, nthreads))
+    filet = set(rng.sample(range(nthreads), min(nfile, nthreads - 1)))
+    lines = []
+    for t in range(nthreads):
+        sep = seps[t % len(seps)]
+        if t in filet:
+            mode = rng.choice(["argfile", "progarg", "env", "argfile", "progarg"])
+            lines.append("file t=%d mode=%s hold=1" % (t, mode))
+            lines.append("arg t=%d key=a kind=int" % t)
+            lines.append("arg t=%d key=l,list kind=vec_int sep=%s" % (t, sep))
+            lines.append("arg t=%d key=n,name kind=str" % t)
+            # free running: hundreds of lines that overwrite scalars (allowed in a file; the result line stays short)
+            body = 1 if forced else rng.choice([150, 300, 600])
+            lines.append("fline t=%d n=%d -a %d" % (t, body, rng.randint(1, 9)))
+            lines.append("fline t=%d n=1 -l %s" % (t, sep.join(str(rng.randint(0, 99)) for _ in range(3))))
+            lines.append("fline t=%d n=1 --hold" % t)
+            lines.append("fline t=%d n=%d --name %s -a %d" % (t, body, rng.choice(WORDS), rng.randint(1, 9)))
+            lines.append("fline t=%d n=1 --list %s" % (t, sep.join(str(rng.randint(0, 99)) for _ in range(2))))
+            if rng.random() < 0.5:
+                lines.append("fline t=%d n=1 -n fromfile" % t)
+            # the command line overwrites a value from the file (accepted only because values from a file do not count)
+            words = (["--arg-file", "@file"] if mode == "argfile" else []) + ["-a", str(rng.randint(10, 99))]
+            if rng.random() < 0.5:
+                words += ["-n", rng.choice(WORDS)]
+            if rng.random() < 0.15:
+                words += ["-a", "7"]                   # ... but twice on the command line is refused
+        else:
+            shape = rng.choice(["twice", "twice", "twice", "card", "fine", "str-twice"])
+            lines.append("arg t=%d key=i kind=int" % t)
+            lines.append("arg t=%d key=v kind=vec_int sep=%s%s" % (t, sep, " card=max:2" if shape == "card" else ""))
+            lines.append("arg t=%d key=s kind=str check=values:abc,def" % t)
+            v = lambda: sep.join(str(rng.randint(0, 99)) for _ in range(3))
+            if shape == "twice":
+                words = ["-i", str(t + 1), "-v", v(), "-s", "def", "-i", str(t + 101)]
+            elif shape == "str-twice":
+                words = ["-s", "abc", "-i", str(t + 1), "-s", "def"]
+            elif shape == "card":
+                words = ["-v", v(), "-i", str(t + 1), "-v", v(), "-v", v()]
+            else:
+                words = ["-i", str(t + 1), "-v", v(), "-s", "abc"]
+        lines.append("argv t=%d %s" % (t, " ".join(words)))
+    lines.append("run n=%d reps=%d seed=%d%s" % (nthreads, reps, rng.randint(1, 10 ** 6), " forced=1" if forced else ""))
+    return Case(cid, lines)
+
+
 def workload(rng, cid, nthreads, reps, simple_ratio):
     nsep = rng.choice([2, 3, 4, len(SEPS)])
     all_seps = rng.sample(SEPS, nsep)
@@ -697,6 +752,13 @@ def generate(prop, tier, seed, scale=1):
     yield ("usage threads (-h on the own command line: Handler::usage -> Singleton<Groups>), first use forced "
            "through the sync points of instance() / free running"), \
         [help_case(rng, "h%d" % i, n, 3, i % 3 != 2) for i, n in enumerate(hsizes)]
+    nfilec = (6 if tier == "quick" else 36) * (3 if directed else 1)
+    fsizes = sorted(([2, 2, 3, 4, 3, 8] * (nfilec // 6 + 1))[:nfilec])
+    yield ("a thread that reads its arguments from a file / environment variable of its own (addArgumentFile, hfReadProgArg "
+           "with $HOME/.progargs/<prog>.pa under a scratch HOME, hfEnvVarArgs) beside plain threads whose acceptance depends "
+           "on the cardinality check; plain jobs forced into the middle of the file / free running with long files"), \
+        [file_case(rng, "f%d" % i, n, 3 if i % 3 != 2 else reps, i % 3 != 2, 1 if (i % 3 != 2 or n < 4) else 2)
+         for i, n in enumerate(fsizes)]
     ngroup = (9 if tier == "quick" else 60) * (3 if directed else 1)
     gsizes = sorted(([2, 2, 3, 4, 3, 8] * (ngroup // 6 + 1))[:ngroup])
     yield ("a group thread beside stand-alone threads (handlers of Groups::instance() registered / evaluated / removed in a "
